@@ -89,7 +89,7 @@ Proof. exact monitor_C03_applied. Qed.
 
 Theorem C03_monitor_deleted : forall sc c0,
   WF sc c0 -> is_dry (o_dry (sc_opts sc)) = false -> has_error (out_trace (run sc c0)) = false ->
-  forallb (gone_ok (out_final (run sc c0))) (events (out_trace (run sc c0))) = true.
+  forallb (gone_ok sc (out_final (run sc c0))) (events (out_trace (run sc c0))) = true.
 Proof. exact monitor_C03_deleted. Qed.
 
 Theorem C03_monitor_destroy : forall sc c0,
@@ -107,7 +107,7 @@ Theorem C03_monitor_unfold : forall sc c0 out,
   | Some l =>
       (set_eqn l (expect_of sc c0 out)
        && forallb (fun i => memn i (managed (out_final out))) (ok_applied_of (events (out_trace out)))
-       && forallb (gone_ok (out_final out)) (events (out_trace out)))%bool
+       && forallb (gone_ok sc (out_final out)) (events (out_trace out)))%bool
   end.
 Proof. exact mon_C03_unfold. Qed.
 
@@ -206,7 +206,9 @@ Proof. vm_compute. repeat split; reflexivity. Qed.
    equation) while object 2 (no finalizer) leaves it; an identical second run finds object 1 still
    tracked and live, deletes it again, and leaves cluster and inventory unchanged.  The executable
    monitor of the correspondence (mon_C03, with its clause "objects whose delete succeeded are gone,
-   unless a finalizer holds them") and the fixpoint check accept the history. *)
+   unless a finalizer holds them") and the fixpoint check accept the history.  The first run is NOT
+   clean (its delete wait timed out: under WF no run that deletes a held object can be clean), so the
+   fixpoint theorems say nothing about the second run, which indeed repeats the delete. *)
 Example C03_finalizer_history :
   let univ := [mkU KNs None None; mkUF KPlain None None true; mkU KPlain None None] in
   let o := mkO false true PMustMatch DNone VSkipInvalid false false true false PropBackground false in
@@ -221,7 +223,8 @@ Example C03_finalizer_history :
   out_final r1 = mkCl [obj 1 5%N] (Some [1]) 9%N /\
   reqs_of (out_trace r2) = [RInvUpdate [1]; RDelete 1 5%N PropBackground] /\
   out_final r2 = out_final r1 /\
-  mon_C03 sc c0 r1 = true /\ mon_C03 sc (out_final r1) r2 = true /\ c03_fixpoint c0 [(sc, r1); (sc, r2)] = true.
+  mon_C03 sc c0 r1 = true /\ mon_C03 sc (out_final r1) r2 = true /\ c03_fixpoint c0 [(sc, r1); (sc, r2)] = true /\
+  wf_b sc c0 = true /\ wf_b sc (out_final r1) = true /\ clean_run sc r1 = false.
 Proof. vm_compute. repeat split; try reflexivity. tauto. Qed.
 (* create 1, delete 2, detach the deletion-prevented 0, no error: the stored inventory ends as [1] *)
 Example C03_monitor_example1 :
